@@ -249,6 +249,28 @@ def _cache_sites(tree):
                         t_, k_ = tg.value.id, u(tg.slice).replace(' ', '')
                         if tt in ('%snotin%s' % (k_, t_), 'not%sin%s' % (k_, t_), 'not(%sin%s)' % (k_, t_), '%s.get(%s)isNone' % (t_, k_)):
                             out.append((fn, 'table', t_, u(tg.slice), n.test, st.value, st))
+            # attribute memo read under try:   try: return X.a  except AttributeError: ..   X.a = value
+            if isinstance(n, ast.Try) and len(n.body) == 1 and isinstance(n.body[0], ast.Return) and isinstance(n.body[0].value, ast.Attribute) \
+                    and isinstance(n.body[0].value.value, ast.Name) and n.body[0].value.value.id in params:
+                x_, a_ = n.body[0].value.value.id, n.body[0].value.attr
+                for st in walk_no_nested(fn):
+                    if isinstance(st, ast.Assign) and getattr(st, 'lineno', 0) > n.lineno:
+                        for tg in st.targets:
+                            if isinstance(tg, ast.Attribute) and isinstance(tg.value, ast.Name) and tg.value.id == x_ and tg.attr == a_:
+                                v_ = st.value
+                                # X.a = local = value   (chained assignment): the local carries the value
+                                out.append((fn, 'attribute', x_, x_, n.body[0].value, v_, st))
+            # table memo kept on the instance:   if K in self.T: return self.T[K]   ..   self.T[K] = value
+            if isinstance(n, ast.If) and isinstance(n.test, ast.Compare) and len(n.test.ops) == 1 and isinstance(n.test.ops[0], (ast.In, ast.NotIn)) \
+                    and isinstance(n.test.comparators[0], ast.Attribute) and isinstance(n.test.comparators[0].value, ast.Name) and n.test.comparators[0].value.id in params:
+                t_, k_ = u(n.test.comparators[0]), u(n.test.left).replace(' ', '')
+                hit_ = n.body if isinstance(n.test.ops[0], ast.In) else n.orelse
+                if not any(isinstance(r_, ast.Return) and isinstance(r_.value, ast.Subscript) and u(r_.value.value) == t_ and u(r_.value.slice).replace(' ', '') == k_ for r_ in hit_):
+                    continue        # the hit branch does not hand out the kept value (a duplicate test that raises, a registry): not a memo
+                for st in walk_no_nested(fn):
+                    if isinstance(st, ast.Assign) and len(st.targets) == 1 and isinstance(st.targets[0], ast.Subscript) and u(st.targets[0].value) == t_ \
+                            and u(st.targets[0].slice).replace(' ', '') == k_:
+                        out.append((fn, 'table', t_, u(st.targets[0].slice), n.test, st.value, st))
             if isinstance(n, ast.Try) and len(n.body) == 1 and isinstance(n.body[0], ast.Return) and isinstance(n.body[0].value, ast.Subscript) \
                     and isinstance(n.body[0].value.value, ast.Name) and n.body[0].value.value.id not in params:
                 t_, k_ = n.body[0].value.value.id, u(n.body[0].value.slice).replace(' ', '')
@@ -274,8 +296,18 @@ def _param_deps(fn, expr, upto):
     for n in walk_no_nested(fn):
         if getattr(n, 'lineno', 0) >= upto.lineno:
             continue
-        if isinstance(n, ast.Assign) and len(n.targets) == 1 and isinstance(n.targets[0], ast.Name):
-            local.setdefault(n.targets[0].id, []).append(n.value)
+        if isinstance(n, ast.Assign) and len(n.targets) == 1 and isinstance(n.targets[0], (ast.Name, ast.Tuple)):
+            names_ = [n.targets[0].id] if isinstance(n.targets[0], ast.Name) else [e_.id for e_ in n.targets[0].elts if isinstance(e_, ast.Name)]
+            for nm_ in names_:
+                local.setdefault(nm_, []).append(n.value)
+                # control dependence: a value assigned under a test (or in a loop over a list) is computed from what the test reads
+                p_ = parent(n)
+                while p_ is not None and p_ is not fn:
+                    if isinstance(p_, (ast.If, ast.While)):
+                        local[nm_].append(p_.test)
+                    elif isinstance(p_, ast.For):
+                        local[nm_].append(p_.iter)
+                    p_ = parent(p_)
         if isinstance(n, ast.For) and isinstance(n.target, ast.Name):
             local.setdefault(n.target.id, []).append(n.iter)
     seen, todo, deps = set(), [expr], set()
@@ -306,13 +338,16 @@ def cache_key_rule(R, mods):
     first call's value (shared as C08.D9)."""
     example = ast.parse("def ops(l, segs=()):\n    if getattr(l, 'kept', None) is None:\n        l.kept = [f(x, segs) for x in l.arg]\n    return l.kept\n"
                         "T = {}\ndef tab(a, b):\n    k = a\n    try:\n        return T[k]\n    except KeyError:\n        pass\n    v = g(a, b)\n    T[k] = v\n    return v\n"
-                        "def fine(l, segs=()):\n    if l.kept is None:\n        l.kept = [f(x) for x in l.arg]\n    return l.kept\n")
+                        "def fine(l, segs=()):\n    if l.kept is None:\n        l.kept = [f(x) for x in l.arg]\n    return l.kept\n"
+                        "def ground(m, tks):\n    try:\n        return m._g\n    except AttributeError:\n        pass\n    g = True\n    for t in tks:\n        if t in ids(m):\n            g = False\n    m._g = g\n    return g\n"
+                        "class K(object):\n    def fmt(self, a, b, im):\n        key = (a, b)\n        if key in self.memo:\n            return self.memo[key]\n        if im == 1:\n            v, w = ('B', 1)\n        else:\n            v, w = ('b', 2)\n"
+                        "        self.memo[key] = size(v), v\n        return self.memo[key]\n")
     for _n in ast.walk(example):
         for _c in ast.iter_child_nodes(_n):
             _c._parent = _n
     exs = [(fn.name, sorted(_param_deps(fn, val, st) - _param_deps(fn, ast.parse(key, mode='eval').body, st) - _param_deps(fn, test, st)))
            for fn, kind, owner, key, test, val, st in _cache_sites(example)]
-    if sorted(exs) != [('fine', []), ('ops', ['segs']), ('tab', ['b'])]:
+    if sorted(exs) != [('fine', []), ('fmt', ['im']), ('ground', ['tks']), ('ops', ['segs']), ('tab', ['b'])]:
         raise AnalysisError('cache-key rule: the built-in positive examples are no longer recognised: %r' % (exs,))
     n = 0
     for m in mods:
